@@ -292,7 +292,7 @@ class Session(AbstractSession):
         # elif isinstance(src, df.datafrme):
         else:
             reader_ = val.array_from_parameter(self, 'reader', src)
-            result = reader_[filter_to_apply]
+            result = reader_[val.validate_filter(filter_to_apply_)]
             if writer_:
                 writer_.data.write(result)
             return result
@@ -328,7 +328,7 @@ class Session(AbstractSession):
         #     return newfld.data[:]
         else:
             reader_ = val.array_from_parameter(self, 'reader', src)
-            result = reader_[index_to_apply]
+            result = reader_[index_to_apply_]
             if writer_:
                 writer_.data.write(result)
             return result
